@@ -66,6 +66,9 @@ class Interpreter(Interp):
             self.exec(s, env)
 
     def exec(self, node, env):
+        self.eng.steps += 1
+        if self.eng.steps > self.eng.max_steps:
+            raise OutOfReach(f"step budget of {self.eng.max_steps} interpreted statements exhausted")
         m = getattr(self, "ex_" + node.__class__.__name__, None)
         if m is None:
             raise OutOfReach(f"statement {node.__class__.__name__} at line {getattr(node, 'lineno', '?')}")
